@@ -208,7 +208,7 @@ prop(
     "capacity 0..3, judged after every step (holders <= n, blocked iff no free slot, ctx error once done, Release never blocks). A bubble scenario / stress round is one case (scenarios distinct by construction)",
     [st("once_stress", "c17", "TestOnceStress", race=True, timeout_q=600, timeout_t=2400), st("sema_stress", "c17", "TestSemaStress", race=True, timeout_q=600, timeout_t=2400),
      st("once_bubble", "c17", "TestOnceBubble", synctest=True, timeout_q=600, timeout_t=2400), st("sema_bubble", "c17", "TestSemaBubble", synctest=True, timeout_q=600, timeout_t=2400)],
-    floors=[dict(stage="once_stress", key="rounds_with_two_or_more_callers_inside_a_construction_window", min=5_000), dict(stage="sema_stress", key="runs_where_holders_reached_capacity", min=12),
+    floors=[dict(stage="once_stress", key="rounds_with_two_or_more_callers_inside_a_construction_window", min=2_000), dict(stage="sema_stress", key="runs_where_holders_reached_capacity", min=6),
             dict(stage="once_bubble", key="scenarios", min=1_000), dict(stage="sema_bubble", key="scenarios", min=10_000)],
     assumptions=["testing/synctest (GOEXPERIMENT=synctest, Go 1.24.2) gives exact quiescence for channel/timer/cond blocking; blocking it cannot see is caught by the bounded-progress watchdog", "only holders release; a spurious Release is exercised on an idle semaphore only"],
 )
